@@ -5,6 +5,7 @@ package main
 import (
 	"fmt"
 	"os"
+	"runtime/debug"
 
 	"verif/checks"
 	"verif/internal/ev"
@@ -18,6 +19,10 @@ func usage() {
 func main() {
 	if len(os.Args) < 2 {
 		usage()
+	}
+	// the checks allocate many short-lived objects (files, syntax trees); collect less often
+	if os.Getenv("GOGC") == "" {
+		debug.SetGCPercent(800)
 	}
 	switch os.Args[1] {
 	case "list":
